@@ -10,6 +10,7 @@ inductive Val where
   | num (n : Int)
   | str (s : String)
   | err (name : String)          -- a native error object, identified by its constructor name
+  | obj (id : Nat)               -- a plain object, identified by its allocation index
 deriving DecidableEq, Repr, Inhabited
 
 /-- concrete expression language used by the driver/harness (the theorems never look inside) -/
@@ -24,6 +25,7 @@ inductive Expr where
   | not (a : Expr)
   | log (e : Expr)              -- host function call log(e)
   | typeofVar (x : String)
+  | objLit (fields : List (String × Int))   -- {k: n, …}: a fresh object with number-valued properties
 deriving Repr, Inhabited
 
 mutual
@@ -43,6 +45,7 @@ inductive Stmt where
   | throwS (e : Expr)
   | tryS (b : Stmts) (hasCatch : Bool) (param : String) (c : Stmts) (hasFin : Bool) (f : Stmts)   -- the three Blocks' statement lists
   | switchS (d : Expr) (cs : Cases)
+  | withS (o : Expr) (b : Stmt)                    -- §12.10
 inductive Stmts where
   | nil
   | cons (s : Stmt) (ss : Stmts)
@@ -63,5 +66,7 @@ structure Sem (St : Type) where
   strictEq : Val → Val → Bool              -- === (switch)
   catchEnter : String → Val → St → St      -- new declarative environment binding the catch parameter
   catchExit : St → St                      -- restore the outer lexical environment
+  withEnter : Val → St → ER St             -- ToObject (may throw TypeError) + new object environment in front
+  withExit : St → St                       -- restore the outer lexical environment
 
 end OttoVerif.C01
